@@ -87,6 +87,13 @@ ASSUMPTIONS = [
     "authenticator, one client that sends no credentials occupies the accept thread: C16_pool_stall_counterexample, "
     "signature C16:pool:auth-stall-blocks-accept.  `good_client_unaffected` / `accept_survives` are proved for the pool "
     "under exactly the negations of these two conditions",
+    "OUTSIDE the model (its `blocked` workers come from incomplete frames and blocking hooks only), probed on the real pool once "
+    "listed as known findings: complete requests carrying a by-reference object whose INSPECT the sender never answers occupy "
+    "a worker for sync_request_timeout each (signature C16:pool:>=nbThreads-requests-awaiting-peer-answer; such frames are "
+    "NOT-MODELLED and judged by the oracle); a departure by RST runs the service's on_disconnect in the pool's polling thread "
+    "(C16:pool:rst-departure-runs-disconnect-hook-in-poller; RST and FIN are one operation to the model)",
+    "'arbitrary byte strings' is per write: in the model a hostile client that sent an incomplete frame can only leave (it "
+    "cannot complete the frame later)",
 ]
 EXPLANATION = ("Theorems for every sequence of client actions including arbitrary byte strings, reused descriptor numbers and "
                "blocking hooks: accept_survives / new_client_served (threaded, forking; pool unless an authentication is "
@@ -98,6 +105,8 @@ EXPLANATION = ("Theorems for every sequence of client actions including arbitrar
 KINDS = ["threaded", "pool", "forking"]
 SIG_STARVE = "C16:pool:>=nbThreads-incomplete-frame-clients"
 SIG_STALL = "C16:pool:auth-stall-blocks-accept"
+SIG_RSTHOOK = "C16:pool:rst-departure-runs-disconnect-hook-in-poller"
+SIG_AWAIT = "C16:pool:>=nbThreads-requests-awaiting-peer-answer"
 HEADER = struct.Struct("!LB")
 
 
@@ -118,6 +127,27 @@ def frames_of(data):
         out.append((flag, data[i + HEADER.size:i + HEADER.size + n]))
         i += HEADER.size + n + 1
     return out, False
+
+
+def awaits_peer(data):
+    """does a write contain a complete, decodable REQUEST frame whose arguments carry a by-reference package: handling it makes
+    the server ask the sender (INSPECT) and wait for the answer"""
+    from rpyc.core import brine, consts
+
+    def has_ref(v):
+        if isinstance(v, tuple):
+            if len(v) == 2 and v[0] == consts.LABEL_REMOTE_REF and not isinstance(v[0], bool):
+                return True
+            return any(has_ref(x) for x in v)
+        return False
+    for flag, body in frames_of(data)[0]:
+        try:
+            v = brine.load(zlib.decompress(body) if flag else body)
+            if isinstance(v, tuple) and len(v) == 3 and v[0] == consts.MSG_REQUEST and has_ref(v[2]):
+                return True
+        except Exception:  # noqa
+            pass
+    return False
 
 
 def zlib_facts(data):
@@ -479,6 +509,9 @@ def gen_case(r, corp, kind=None):
             toks.append(("z%d" if transport == "tcp" and r.chance(1, 2) else "a%d") % k)
         if r.chance(1, 9):                                            # accept() fails once; the server goes on
             toks.append("E")
+        if kind in ("threaded", "forking") and r.chance(1, 9):        # no thread / child for a newcomer: turned away
+            toks.append("f%d" % nextk)
+            nextk += 1
         if r.chance(1, 2):                                            # the server still accepts
             connect_good()
             if len(good) > 3:
@@ -553,7 +586,7 @@ def correspondence(ctx):
     r = Rng(ctx.seed).fork("c16")
     corp = hostile_corpus()
     per_kind = ctx.budget(150, 1500)
-    deadline = time.time() + ctx.budget(72, 800)
+    deadline = time.time() + ctx.budget(60, 800)
     sessions = dict((k, 0) for k in KINDS)
     believed = 0
     cases = corpus()
@@ -594,6 +627,8 @@ def correspondence(ctx):
             c.count("kind:" + case["server"])
             c.count("transport:" + case["transport"])
             c.count("auth:" + ("yes" if case["auth"] else "no"))
+            for o in case.get("opts", ()):
+                c.count("option:" + o)
             for t, l in zip(case["ops"], lines):
                 c.count("op:" + t[0])
                 if t[0] in "plouw":
@@ -634,6 +669,7 @@ def oracle_case(case, known=(), ceiling=servers.CEILING):
         hostile, holding, stalled = set(), set(), set()
         armed, in_hook, waiting = set(), set(), set()
         unadmitted = set()
+        awaiting = set()           # hostile clients that made the server ask them something they will not answer
         faulted = False
         for i, tok in enumerate(case["ops"]):
             t = tok[0]
@@ -672,7 +708,10 @@ def oracle_case(case, known=(), ceiling=servers.CEILING):
                     servers.ITEM_BYTES[x]() for x in tok.split(":")[1])
                 if frames_of(data)[1]:
                     holding.add(k)
+                if awaits_peer(data):
+                    awaiting.add(k)
             if t in "az":
+                awaiting.discard(k)
                 holding.discard(k)
                 stalled.discard(k)
             obs = sess.do(tok)
@@ -692,7 +731,7 @@ def oracle_case(case, known=(), ceiling=servers.CEILING):
             if (t in "azh" or (t == "c" and tok[-2:] in (":r", ":b", ":e"))) and not in_hook:
                 # a client that has gone (or was turned away) keeps no tracked socket and no descriptor of the server:
                 # otherwise every such client costs the server a descriptor for good, and it dies of EMFILE in the end
-                starving = kind == "pool" and (len(holding) + len(in_hook) >= case["nb"] or stalled)
+                starving = kind == "pool" and (len(holding | awaiting) + len(in_hook) >= case["nb"] or stalled)
                 if not starving:
                     def live():
                         return sum(1 for c2 in sess.clients.values() if c2.open and not c2.eof)
@@ -717,8 +756,8 @@ def oracle_case(case, known=(), ceiling=servers.CEILING):
             # - stalled authentication (the accept thread is held): excuses a TIMEOUT of clients that connected while it lasted
             #   (they are not admitted yet); those served before go on being served by the workers
             excuse = None
-            if kind == "pool" and len(holding) >= case["nb"]:
-                excuse = SIG_STARVE
+            if kind == "pool" and len(holding | awaiting) >= case["nb"]:
+                excuse = SIG_AWAIT if awaiting else SIG_STARVE
             if kind == "pool" and stalled and k in unadmitted:
                 excuse = excuse or SIG_STALL
             if t == "c" and kind == "pool" and stalled:
@@ -739,8 +778,8 @@ def oracle_case(case, known=(), ceiling=servers.CEILING):
                         if excuse in known:
                             continue
                         return (where + "the call of well-behaved client %d was not answered within %.1f s while %s"
-                                % (k, sess.call_timeout, "clients %s hold an incomplete frame open (nbThreads=%d)"
-                                   % (sorted(holding), case["nb"]) if excuse == SIG_STARVE else
+                                % (k, sess.call_timeout, "clients %s hold an incomplete frame open / leave a request of the server unanswered (nbThreads=%d)"
+                                   % (sorted(holding | awaiting), case["nb"]) if excuse in (SIG_STARVE, SIG_AWAIT) else
                                    "client(s) %s stall the authentication" % sorted(stalled))), excuse
                     sig = "C16:%s:good-client-call-failed" % kind
                     if obs == "eof" and any(x[0] == "h" for x in case["ops"][:i]) and any(
@@ -775,8 +814,8 @@ def oracle_case(case, known=(), ceiling=servers.CEILING):
                     % (snap["A"], snap["L"], " (after an error from accept() or a failed spawn()/fork())" if faulted else ""),
                     "C16:%s:%s" % (kind, "accept-or-spawn-error-closes-server" if faulted else "accept-dead"))
         excuse = None
-        if kind == "pool" and len(holding) >= case["nb"]:
-            excuse = SIG_STARVE
+        if kind == "pool" and len(holding | awaiting) >= case["nb"]:
+            excuse = SIG_AWAIT if awaiting else SIG_STARVE
         if kind == "pool" and stalled:
             excuse = excuse or SIG_STALL              # the newcomer connects while the stall lasts
         probe = servers.Client(9999, sess)
@@ -969,6 +1008,33 @@ def known_probes(ctx):
                 "ThreadPoolServer with an authenticator: one client connects and sends no credentials (the authenticator "
                 "runs in the accept thread); a new well-behaved client's first call goes %s while it is connected and %s "
                 "once it has left; signature %s" % (obs[4], obs[6], SIG_STALL)))
+    # two more shapes of "a client occupies a thread of the pool", probed once they are listed as known findings (a probe that
+    # reproduces without being listed is reported as a violation by the pipeline)
+    listed = set(getattr(ctx, "known_signatures", ()) or ())
+    if SIG_RSTHOOK in listed:
+        case = case_dict("pool", "tcp", False, 2, ["c1:g", "m1", "c2:g", "p2", "z1", "p2", "h1", "p2"])
+        lines, _ = run_impl(case, None, 3.0)
+        obs = [l.split("|", 1)[0] for l in lines]
+        rep = obs[3] == "pong" and obs[5] == "timeout" and obs[7] == "pong"
+        out.append((SIG_RSTHOOK, rep,
+                    "ThreadPoolServer: a client that departs by RST (SO_LINGER 0) is dropped by the POLLING thread "
+                    "(_handle_poll_result -> _drop_connection), which runs the service's on_disconnect there: while that hook "
+                    "runs (here it blocks until released) no connection is handed to the workers - another client's call goes "
+                    "%s -> %s -> %s (before the RST / while the hook runs / after it returned); a departure by FIN runs the hook "
+                    "in a worker; signature %s" % (obs[3], obs[5], obs[7], SIG_RSTHOOK)))
+    if SIG_AWAIT in listed:
+        from rpyc.core import consts as _c
+        fr = servers.wire_frame((_c.MSG_REQUEST, 5, (_c.HANDLE_PING, (_c.LABEL_TUPLE, ((_c.LABEL_REMOTE_REF,
+                                                                                       ("evil.T", 1, 0)),))))).hex()
+        case = case_dict("pool", "tcp", False, 2, ["c1:g", "c2:g", "c3:g", "p3", "r1:" + fr, "r2:" + fr, "p3", "a1", "a2", "p3"])
+        lines, _ = run_impl(case, None, 3.0)
+        obs = [l.split("|", 1)[0] for l in lines]
+        rep = obs[3] == "pong" and obs[6] == "timeout" and obs[9] == "pong"
+        out.append((SIG_AWAIT, rep,
+                    "ThreadPoolServer(nbThreads=2): two clients each send one complete, well-formed request whose argument is a "
+                    "by-reference object of an unknown class and never answer the INSPECT the worker then sends (it waits "
+                    "sync_request_timeout, 30 s by default); the call of a well-behaved client goes %s -> %s -> %s (before / "
+                    "while they are connected / after they left); signature %s" % (obs[3], obs[6], obs[9], SIG_AWAIT)))
     return out
 
 
